@@ -58,8 +58,8 @@ class Server:
                     % (self.docroot, bind, self.port, self.errlog, os.path.join(self.root, "tmp"), mods, extra_top, conf_body.replace("@ROOT@", self.root).replace("@DOCROOT@", self.docroot)))
         self.proc = None
 
-    def start(self):
-        env = dict(os.environ); env.update(vlib.HARNESS_ENV)
+    def start(self, extra_env=None):
+        env = dict(os.environ); env.update(vlib.HARNESS_ENV); env.update(extra_env or {})
         env["ASAN_OPTIONS"] = "detect_leaks=0:exitcode=99:abort_on_error=0"
         env["UBSAN_OPTIONS"] = "exitcode=98:print_stacktrace=1"
         self.proc = subprocess.Popen([self.exe, "-D", "-f", self.conf, "-m", self.moddir], stdout=subprocess.PIPE, stderr=subprocess.STDOUT, env=env)
